@@ -99,6 +99,18 @@ class ExitInformation(object):
             return "sufficiently small" not in self.msg  # restart for rho=rhoend and noise level termination
 
 
+def rescale_growing_direction(dirn, dirn_orig, step_length):
+    # Scale an orthogonalised random direction to the required length.  If nothing is left after orthogonalising
+    # (the current directions already span every feasible direction), keep the random direction itself; if that is
+    # (numerically) zero too, make no step.  Dividing by a zero or denormal norm gave NaN/infinite points (or ZeroDivisionError).
+    if LA.norm(dirn) <= 1e-8 * LA.norm(dirn_orig):
+        dirn = dirn_orig
+    dirn_norm = LA.norm(dirn)
+    if dirn_norm <= 1e-15 * step_length:
+        return np.zeros(dirn.shape)
+    return dirn * (step_length / dirn_norm)
+
+
 class Controller(object):
     def __init__(self, objfun, argsf, x0, r0, r0_nsamples, xl, xu, projections, npt, rhobeg, rhoend, nf, nx, maxfun, params,
                  scaling_changes, do_logging, h=None, lh=None, argsh = (), prox_uh=None, argsprox = (), x0_eval_num=1):
@@ -423,6 +435,7 @@ class Controller(object):
         # Step from xopt along a random direction orthogonal to other yt (or multiple mutually orthogonal steps)
         xopt = self.model.xopt()
         dirns = random_directions_within_bounds(num_steps, step_length, self.model.sl - xopt, self.model.su - xopt)
+        dirns_orig = dirns.copy()
         # Make direction orthogonal
         Y = self.model.xpt_directions(include_kopt=False).T  # columns are the current set of directions
         Q, R = LA.qr(Y, mode='economic')  # columns of Q are orthonormal basis for current set of directions
@@ -433,7 +446,7 @@ class Controller(object):
 
         # Evaluate the points
         for j in range(num_steps):
-            xnew = self.model.xopt() + (step_length / LA.norm(dirns[j, :])) * dirns[j, :]
+            xnew = self.model.xopt() + rescale_growing_direction(dirns[j, :], dirns_orig[j, :], step_length)
             x = self.model.as_absolute_coordinates(xnew)
             rvec_list, obj_list, num_samples_run, exit_info = self.evaluate_objective(x, number_of_samples, params)
 
@@ -466,6 +479,7 @@ class Controller(object):
         # Step from xopt along a random direction orthogonal to other yt (or multiple mutually orthogonal steps)
         xopt = self.model.xopt()
         dirn = random_directions_within_bounds(1, step_length, self.model.sl - xopt, self.model.su - xopt)[0, :]
+        dirn_orig = dirn.copy()
         # Make direction orthogonal
         Y = self.model.xpt_directions(include_kopt=False).T  # columns are the current set of directions
         Q, R = LA.qr(Y, mode='economic')  # columns of Q are orthonormal basis for current set of directions
@@ -473,7 +487,7 @@ class Controller(object):
             qk = Q[:, k]
             dirn = dirn - np.dot(dirn, qk) * qk
 
-        return dirn * (step_length / LA.norm(dirn))
+        return rescale_growing_direction(dirn, dirn_orig, step_length)
 
     def evaluate_criticality_measure(self, params):
         # Calculate criticality measure for regularized problems (h is not None)
